@@ -439,6 +439,7 @@ func (r *run) runIsolated() {
 			for j := range jobs {
 				for j.from < j.to {
 					if p == nil {
+						atomic.StoreUint64(&hb.words()[0], 0)
 						p, err = startWorker(self, r.tier, hbPath)
 						if err != nil {
 							r.mu.Lock()
@@ -454,6 +455,14 @@ func (r *run) runIsolated() {
 					}
 					// worker died or hung inside the chunk at heartbeat index
 					wd := hb.words()
+					if atomic.LoadUint64(&wd[0]) == 0 {
+						// it never evaluated a case: it died or hung while starting up
+						r.mu.Lock()
+						r.harnessErrs = append(r.harnessErrs, "worker "+kind+" before its first case (start-up failure):\n"+tail(p.stderrTail(), 3000))
+						r.mu.Unlock()
+						p.stop()
+						return
+					}
 					idx := atomic.LoadUint64(&wd[2])
 					evals := atomic.LoadUint64(&wd[3])
 					nontr := atomic.LoadUint64(&wd[4])
